@@ -141,6 +141,8 @@ func Strip(v ssa.Value) ssa.Value {
 			// branch in which the value is used are feasible
 			if fe := FeasibleEdges(x); len(fe) == 1 {
 				v = fe[0]
+			} else if one := lazyInitValue(x); one != nil {
+				v = one
 			} else {
 				return v
 			}
@@ -1610,4 +1612,60 @@ func IsSentinelErr(v ssa.Value) bool {
 	}
 	pt, ok := g.Type().Underlying().(*types.Pointer)
 	return ok && pt.Elem().String() == "error"
+}
+
+
+// lazyInitValue: the loop-carried "compute once, on first use" idiom —
+//
+//	var k *T
+//	for … { if k == nil { k, err = load(); … } use(k) }
+//
+// leaves, at the use, a phi over {the call's result, the phi of the previous iteration, nil}: every alternative that is
+// not nil and not the cycle itself is ONE call result (a pointer, dereferenced at the use, so the nil alternative cannot
+// be the value used). The phi then denotes that call's result.
+func lazyInitValue(p *ssa.Phi) ssa.Value {
+	if _, isPtr := p.Type().Underlying().(*types.Pointer); !isPtr {
+		return nil
+	}
+	var one ssa.Value
+	seen := map[*ssa.Phi]bool{}
+	var walk func(v ssa.Value) bool
+	walk = func(v ssa.Value) bool {
+		v = rawStrip(v)
+		switch x := v.(type) {
+		case *ssa.Phi:
+			if seen[x] {
+				return true
+			}
+			seen[x] = true
+			for _, e := range x.Edges {
+				if !walk(e) {
+					return false
+				}
+			}
+			return true
+		case *ssa.Const:
+			return x.Value == nil
+		case *ssa.Extract:
+			if _, isCall := x.Tuple.(*ssa.Call); !isCall {
+				return false
+			}
+			if one != nil && one != v {
+				return false
+			}
+			one = v
+			return true
+		case *ssa.Call:
+			if one != nil && one != v {
+				return false
+			}
+			one = v
+			return true
+		}
+		return false
+	}
+	if !walk(p) || one == nil || len(seen) < 2 {
+		return nil
+	}
+	return one
 }
